@@ -70,7 +70,7 @@ func genOps(t *rapid.T) opsCase {
 				rapid.SampledFrom([]uint64{0, 1, 2, 6, 7, 8, 254, 255, 256, 65534, 65535, 65536, 1<<31 - 2, 1<<31 - 1, 1 << 31, 1<<32 - 3, 1<<32 - 2})).Draw(t, "ue")
 			c.Ops = append(c.Ops, op{K: "ue", V: int64(v)})
 		case "se":
-			v := rapid.OneOf(rapid.Int64Range(-20, 20), rapid.Int64Range(-(1<<31 - 1), 1<<31-1),
+			v := rapid.OneOf(rapid.Int64Range(-20, 20), rapid.Int64Range(-(1<<31-1), 1<<31-1),
 				rapid.SampledFrom([]int64{0, 1, -1, 127, -127, 128, -128, 32767, -32768, 1<<31 - 1, -(1<<31 - 1)})).Draw(t, "se")
 			c.Ops = append(c.Ops, op{K: "se", V: v})
 		}
@@ -482,7 +482,7 @@ type trailingCase struct {
 	Head     harness.HexBytes `json:"head"`      // whole bytes before the query position
 	HeadBits int              `json:"head_bits"` // 0..7 extra bits (value HeadV) before the query position
 	HeadV    uint             `json:"headv"`
-	More     harness.HexBytes `json:"more"`     // data bytes between the position and the trailing bits (may be empty)
+	More     harness.HexBytes `json:"more"`      // data bytes between the position and the trailing bits (may be empty)
 	MoreBits int              `json:"more_bits"` // extra data bits
 	MoreV    uint             `json:"morev"`
 	ZeroTail int              `json:"zero_tail"` // whole zero bytes after the trailing bits (cabac_zero_words-like), 0..2
